@@ -540,7 +540,8 @@ class Hdf5Saver:
         if obj_reduce is not None:
             rv = obj_reduce()
             if isinstance(rv, str):
-                h5gr = self.save_global(obj, REPR_GLOBAL)
+                # pickle protocol: `rv` is the name of a global variable in the module of `obj`
+                h5gr = self.save_global(obj, path, REPR_GLOBAL, name=rv)
                 return h5gr
             if not isinstance(rv, tuple) or not 2 <= len(rv) < 7:
                 raise Hdf5ExportError(f'Wrong return value of {obj_reduce!r}')
@@ -803,10 +804,10 @@ class Hdf5Saver:
 
     dispatch_save[Hdf5Ignored] = (save_ignored, REPR_IGNORED)
 
-    def save_global(self, obj, path, type_repr):
-        """Save a global object like a function or class."""
+    def save_global(self, obj, path, type_repr, name=None):
+        """Save a global object like a function or class, or a global variable with given `name`."""
         module = obj.__module__
-        qualname = obj.__qualname__
+        qualname = obj.__qualname__ if name is None else name
         try:
             obj2 = find_global(module, qualname)
         except (ImportError, KeyError, AttributeError):
